@@ -288,6 +288,9 @@ class Lexer(object):
 
             if char != '/' or (char == '/' and next_char in ('/', '*')):
                 tok = self._get_update_token()
+                if tok is None:
+                    # only ignored characters were left in the input
+                    return tok
                 if tok.type in DIVISION_SYNTAX_MARKERS:
                     if tok.type in COMMENTS:
                         if self.yield_comments:
